@@ -34,7 +34,7 @@ def plan(tier):
                 'operation dispatch and response build; a cell is (clients, overlap class, linearisation order class)',
         'min_monitor': {'histories_linearised': 150, 'identity_hook_evaluations': 3000, 'yields_injected': 5000,
                         'overlapping_request_pairs': 200, 'lock_contentions': 50,
-                        'codec_race_answers_checked': 1500},
+                        'codec_race_answers_checked': 1500, 'beside_answers_compared': 300},
         'assumptions': ['stamps are taken at the fake connection (frame fully received / sendall) from one counter',
                         'server-generated key bytes are masked in responses and stores',
                         'interleavings the injected yields did not produce are not covered'],
@@ -43,7 +43,8 @@ def plan(tier):
 
 def cases(tier, seed):
     n = 400 if tier == 'quick' else 4000
-    return [{'hist': i} for i in range(n)] + [{'codec': i} for i in range(16 if tier == 'quick' else 160)]
+    return [{'hist': i} for i in range(n)] + [{'codec': i} for i in range(16 if tier == 'quick' else 160)] + \
+        [{'beside': i} for i in range(16 if tier == 'quick' else 160)]
 
 
 class CountingLock(object):
@@ -334,9 +335,51 @@ def run_codec_race(ctx, case):
             srv.close()
 
 
+def run_beside(ctx, case):
+    """The oracle of the histories above replays the implementation one request at a time, so a fault that is the same in
+    every order (something one session's request leaves behind for the next request of any session) is invisible to it.
+    This class has an oracle of its own: sessions whose requests cannot depend on each other - reads and attribute changes
+    of objects of their own, Query, DiscoverVersions, each request with one of the optional header fields few clients send
+    (time stamps within the freshness window, asynchronous indicator, maximum response size, batch options) - are answered
+    alone first, then beside each other with yields injected; every answer must be the same."""
+    from kv.monitors.concurrent import alone_vs_beside, header_variant
+    rng = ctx.rng()
+    clock = rig.install_clock(rig.VClock(step=0))
+    users = [(('alice', None), (1, 2)), (('bob', None), (2, 0)), (('carol', None), (1, 4)), (('dave', None), (1, 0)), (('erin', None), (1, 3))]
+    clients = rng.sample(users, rng.choice((2, 3, 4)))
+    with rig.scratch_dir() as d:
+        srv = rig.Server(d + '/db.sqlite')
+        try:
+            scripts, labels = [], []
+            for (u, g), v in clients:
+                o = store.register(srv, 'sym', u, rng, names=['%s-own' % u], groups=['%s-g' % u], state='pre', value=bytes(range(16)))
+                if o is None:
+                    ctx.unsure('setup of a C10 beside-history failed')
+                    return
+                frames, labs = [], []
+                for j in range(rng.randrange(6, 14)):
+                    lab, kw = header_variant(rng, clock.now)
+                    op = rng.choice((op_get(o.uid), op_get_attributes(o.uid), op_query(), op_get_attribute_list(o.uid),
+                                     op_locate([rig.attr(E.AttributeType.NAME, name_value('%s-own' % u))]),
+                                     op_modify_attribute_1x(o.uid, rig.attr(E.AttributeType.OBJECT_GROUP, '%s-g%d' % (u, j), 0)) if v < (2, 0) else op_get(o.uid)))
+                    try:
+                        frames.append(rig.encode_request(rig.build_request(v, [op], **kw), v))
+                        labs.append(lab)
+                    except Exception:
+                        pass
+                scripts.append(((u, g), frames))
+                labels.append(labs)
+            ctx.cell('beside', '+'.join('%d.%d' % v for _, v in clients))
+            alone_vs_beside(ctx, d, srv, scripts, rng, 'beside', labels, name='kv-c10b')
+        finally:
+            srv.close()
+
+
 def run_case(ctx, case):
     if 'codec' in case:
         return run_codec_race(ctx, case)
+    if 'beside' in case:
+        return run_beside(ctx, case)
     rng = ctx.rng()
     clock = rig.install_clock(rig.VClock(step=0))
     cert_of = {}
